@@ -131,9 +131,8 @@ class MediaList(css_parser.util._NewListBase):
             self._log.error('MediaQuery: No content.',
                             error=xml.dom.SyntaxErr)
 
-        self._wellformed = ok
-
         if ok:
+            self._wellformed = ok
             mediaTypes = []
             finalseq = css_parser.util.Seq(readonly=False)
             commentseqonly = css_parser.util.Seq(readonly=False)
